@@ -44,6 +44,12 @@ func init() {
 	for _, id := range []string{"C02", "C03", "C04", "C11", "C12", "C18"} {
 		propsCfg[id] = propCfg{harness: "ha", shards: 16, quickBudget: 150 * time.Second, thoroughBudget: 40 * time.Minute}
 	}
+	for _, id := range []string{"C01", "C10"} {
+		// the two largest thorough enumerations (about 40 and 35 minutes on 16 idle cores)
+		c := propsCfg[id]
+		c.thoroughBudget = 75 * time.Minute
+		propsCfg[id] = c
+	}
 	for _, id := range []string{"C02", "C03", "C15", "C17"} {
 		c := propsCfg[id]
 		c.also, c.alsoShards = "hb", 4
